@@ -253,6 +253,8 @@ class Types:
                     et = elem(it)
                     if isinstance(n.iter, ast.Call) and isinstance(n.iter.func, ast.Name) and n.iter.func.id == "enumerate" and n.iter.args:
                         et = ("tuple", (INT, elem(self.expr_type(n.iter.args[0], f, self_cls, env))))
+                    if isinstance(n.iter, ast.Call) and isinstance(n.iter.func, ast.Name) and n.iter.func.id == "zip" and n.iter.args and not n.iter.keywords and not any(isinstance(a, ast.Starred) for a in n.iter.args):
+                        et = ("tuple", tuple(elem(self.expr_type(a, f, self_cls, env)) for a in n.iter.args))
                     self._bind(n.target, et, acc)
                 elif isinstance(n, ast.ExceptHandler) and n.name:
                     acc.setdefault(n.name, []).append(("ext", "Exception"))
@@ -419,6 +421,8 @@ class Types:
             et = elem(self.expr_type(g.iter, f, self_cls, env2))
             if isinstance(g.iter, ast.Call) and isinstance(g.iter.func, ast.Name) and g.iter.func.id == "enumerate" and g.iter.args:
                 et = ("tuple", (INT, elem(self.expr_type(g.iter.args[0], f, self_cls, env2))))
+            if isinstance(g.iter, ast.Call) and isinstance(g.iter.func, ast.Name) and g.iter.func.id == "zip" and g.iter.args and not g.iter.keywords and not any(isinstance(a, ast.Starred) for a in g.iter.args):
+                et = ("tuple", tuple(elem(self.expr_type(a, f, self_cls, env2)) for a in g.iter.args))
             acc: Dict[str, List[T]] = {}
             self._bind(g.target, et, acc)
             for k, v in acc.items():
